@@ -44,6 +44,8 @@ class DCConfig:
     server_tokens: t.Sequence[bytes] = (b"SRV1", b"")
     reply_align: int = 16
     reply_pad_fill: int = 0xBB
+    rogue_isd_on_135: bool = False  # NOT conforming: port 135 also answers ISD_KEY binds, with no security context at all (attacker role in C16)
+    rogue_ignore_auth_failure: bool = False  # NOT conforming: pretend a failed authentication leg succeeded (attacker role in C16)
     reply_delay: float = 0.0  # seconds a (slow but conforming) DC takes before it answers a GetKey request
     other_op_reply: t.Optional[bytes] = None  # if set: a request whose stub is not a GetKey request is answered with this (sealed) stub instead of a fault
     reply_fragment_cuts: t.Optional[t.Sequence[int]] = None  # stub offsets at which the GetKey reply is split into individually sealed fragments
@@ -264,6 +266,11 @@ class Conn:
         name = "bind" if reply_type == rpc.BIND_ACK else "alter_context"
         offered_sign = bool(m["flags"] & rpc.PFC_SUPPORT_HEADER_SIGN)
         e = self.ev(event=name, flags=m["flags"], call_id=m["call_id"], contexts=m["contexts"], auth=None if not m["auth"] else {k: m["auth"][k] for k in ("type", "level", "pad", "ctx")}, token=m["auth"]["token"] if m["auth"] else None, offered_header_sign=offered_sign)
+        if self.kind == "epm" and cfg.rogue_isd_on_135 and any(abstract == rpc.ISD_KEY for _cid, abstract, _tr in m["contexts"]):
+            # a ROGUE endpoint on port 135 that also speaks ISD_KEY - without any security context (attacker role in C16)
+            self.kind = "isd"
+            self.rogue_plain = True
+            e["rogue_isd_on_135"] = True
         results = []
         want_abstract = rpc.EPM if self.kind == "epm" else rpc.ISD_KEY
         for cid, abstract, transfers in m["contexts"]:
@@ -277,7 +284,7 @@ class Conn:
                 results.append((RESULT_PROV_REJ, 2, uuid.UUID(int=0), 0))
         token_out = None
         auth_out = None
-        if m["auth"] is not None:
+        if m["auth"] is not None and not (getattr(self, "rogue_plain", False) and self.sec is None):
             if self.sec is None:
                 self.auth_type, self.auth_level, self.auth_ctx_id = m["auth"]["type"], m["auth"]["level"], m["auth"]["ctx"]
                 if cfg.security == "scripted":
@@ -288,7 +295,16 @@ class Conn:
                     raise CloseConnection()
                 self.client_offered_sign = offered_sign
                 self.sign_header = offered_sign and cfg.header_sign
-            token_out = self.sec.step(m["auth"]["token"])
+            try:
+                token_out = self.sec.step(m["auth"]["token"])
+            except Exception as ex:
+                if not cfg.rogue_ignore_auth_failure:
+                    raise
+                # a ROGUE server (it does not hold the account's secret, cannot verify anything and does not care): it
+                # answers as if the leg had succeeded and from now on speaks without a security context
+                e["rogue_ignored_auth_failure"] = f"{type(ex).__name__}"
+                token_out = None
+                self.rogue_plain = True
             e["server_token_len"] = None if token_out is None else len(token_out)
             e["server_complete"] = self.sec.complete
             if token_out:
@@ -327,7 +343,7 @@ class Conn:
         cfg = self.dc.config
         e = self.ev(event="request", ctx_id=m["ctx_id"], opnum=m["opnum"], call_id=m["call_id"], flags=m["flags"], alloc_hint=m["alloc_hint"], obj=m["obj"], wire_len=len(raw), auth=None if not m["auth"] else {k: m["auth"][k] for k in ("type", "level", "pad", "ctx")}, auth_len=m["auth_len"])
         e["bound"] = m["ctx_id"] in self.bound_contexts
-        if self.sec is None or m["auth"] is None:
+        if self.sec is None or m["auth"] is None or getattr(self, "rogue_plain", False):
             e["sealed"] = False
             e["unsealed_on_auth_connection"] = self.sec is not None
             e["plain_stub"] = m["stub"]
@@ -386,7 +402,7 @@ class Conn:
     def seal_fragment(self, m: dict, piece: bytes, flags: int, e: t.Optional[dict] = None) -> bytes:
         """One Response fragment carrying `piece`, sealed by this connection's security context (consumes a sequence number)."""
         cfg = self.dc.config
-        if self.sec is None:
+        if self.sec is None or getattr(self, "rogue_plain", False):
             return rpc.encode(dict(ptype=rpc.RESPONSE, flags=flags, call_id=m["call_id"], auth=None, alloc_hint=len(piece), ctx_id=m["ctx_id"], cancel_count=0, stub=piece))
         padn = -len(piece) % cfg.reply_align if cfg.reply_pad_exact is None else cfg.reply_pad_exact
         body = piece + bytes([cfg.reply_pad_fill]) * padn
